@@ -188,6 +188,7 @@ var props = map[string]Prop{
 	},
 	"C06": {
 		Stages: []Stage{
+			{Name: "manyuses", Test: "TestC06ManyUses", Shards: [2]int{4, 8}, SeedOffset: 1, Timeout: [2]time.Duration{10 * min, 30 * min}},
 			{Name: "bindings", Test: "TestC06Bindings", Shards: [2]int{6, 16}, Checks: [2]int{2500, 150000}, Timeout: [2]time.Duration{10 * min, 90 * min}},
 		},
 		Rule: "rapid-generated configurations: 0-3 parameters (names colliding with columns k/a1, with the constant true, with later let names; typed placeholder snippets; generated values) x 0-5 let statements (literal, signed, parenthesised-signed, compound, reference and compound-over-reference values; redefinition; shadowing of parameters; lets after the query) x a well-typed pipeline of 1-5 operators (joins included) in which one leaf in two is a binding of the right type, in every expression position (where, project, extend, summarize aggregate and key, sort, take/top counts, join conditions) and under every operator the typed grammar has (signs, all precedence levels, in-lists, iff); colliding non-uses: columns, aliases and `as` names spelled like a binding (then referenced in backticks), qualified $left./$right. names. Oracle: (1) the emitted SQL evaluated with placeholders bound to the generated values equals the reference interpreter with lexical scoping (a let value is computed once, in the scope of the lets and parameters before it; later lets shadow); (2) adding an unused let, an unused parameter and lets after the query leaves the SQL byte-identical; (3) a parameter's snippet occurs verbatim in the SQL iff the parameter reaches the query through substituted uses (directly or through a chain of lets). Non-trivial = at least one binding used in the query and at least one of: shadowing, redefinition, reference chain, signed or compound value, use in a join condition or row count, an alias or `as` name spelled like a binding; distinct = program shape.",
